@@ -1,5 +1,6 @@
 import RLV.Model.Bind
 import RLV.Model.Comp
+import RLV.Model.CompLine
 import RLV.Model.Cpr
 import RLV.Model.Core
 import RLV.Model.Disp
@@ -258,6 +259,28 @@ def step (line : String) : String :=
         pure (pfx, l2, c2) : Core.G _) with
     | .ok (pfx, l2, c2) => s!"ok {showNats pfx} {showNats l2} {c2}"
     | .error e => e.show
+  | ["compseq", l, cp, ops] =>
+    -- the two lines of the completion engine under a sequence of operations; after each one the
+    -- visible line and cursor, the real line and cursor
+    Id.run do
+      let mut s : CompLine.St := { line := parseNats l, cur := cp.toInt?.getD 0 }
+      let mut out : List String := []
+      for op in parseList ops "," do
+        let r : Core.G CompLine.St := match op.splitOn ":" with
+          | ["g"] => CompLine.prepare (CompLine.clearMenu s)
+          | ["s", v] => CompLine.select s (parseNats v)
+          | ["x"] => pure (CompLine.cancel s true)
+          | ["k"] => pure (CompLine.clearMenu (CompLine.cancel s false))
+          | ["u", v] => CompLine.accept s (parseNats v)
+          | ["e", c] => CompLine.edit s (c.toNat?.getD 97)
+          | _ => pure s
+        match r with
+        | .ok s' =>
+          s := s'
+          let v := CompLine.visible s
+          out := out ++ [s!"{showNats v.1}@{v.2}/{showNats s.line}@{CompLine.clamp s.line s.cur}"]
+        | .error e => out := out ++ [e.show]; break
+      return " ".intercalate out
   | ["loop", flags, regs, mtbl, ltbl, chunks] =>
     -- the whole main loop on probe commands and bind macros: flags = emacs, nonInc, isearch;
     -- table entries seq:action:macro, the action of a macro given as its runes
